@@ -154,6 +154,22 @@ static void trace_add(const char* f, ...) {
     va_end(ap);
 }
 
+static int sync_log;
+void mc_log_sync(int on) { sync_log = on; }
+
+/* synchronisation events in the observation log (only when the harness asked for them with mc_log_sync(1)):
+ *   "T1 L0" lock of mutex 0 acquired   "T1 A0" re-acquired after a condition wait   "T1 U0" unlocked
+ *   "T1 C2" went to sleep on condition variable 2 (mutex released)   "T3 S2>1" signal on c2 woke T1 ("S2>-": nobody)
+ *   "T3 B2>1,2" broadcast   "E TO1" the timeout of T1's timed wait fired   "E SP1" spurious wake-up of T1 */
+static void sync_ev(const char* f, ...) {
+    if (!sync_log) return;
+    if (R->obs_len > OBS_MAX - 100) machinery("observation log overflow");
+    va_list ap; va_start(ap, f);
+    R->obs_len += (int)mc_vfmt(R->obs + R->obs_len, (size_t)(OBS_MAX - R->obs_len - 2), f, ap);
+    va_end(ap);
+    R->obs[R->obs_len++] = '\n'; R->obs[R->obs_len] = 0;
+}
+
 static int mx_find(void* a) {
     for (int i = nmx - 1; i >= 0; i--) if (mx[i].live && mx[i].addr == a) return i;
     if (nmx >= MAX_OBJ) machinery("too many mutexes");
@@ -282,6 +298,7 @@ static void thread_states(void) {
     }
     b[k] = 0;
     mc_end("thr=%s ", b);
+    for (int i = 0; i < nmx; i++) if (mx[i].live && mx[i].owner >= 0) mc_end("held:m%d=T%d ", i, mx[i].owner);
 }
 
 static void terminal(int status) {
@@ -315,8 +332,8 @@ static void schedule(int self) {
         if (opt_verbose) { char b[64]; describe(b, sizeof b, &tr); trace_add("%s\n", b); }
         switch (tr.kind) {
         case K_STOP: terminal(ST_BLOCKED);
-        case K_TIMEOUT: th[tr.t].op = OP_REACQ; th[tr.t].rc = ETIMEDOUT; continue;
-        case K_SPURIOUS: th[tr.t].op = OP_REACQ; th[tr.t].rc = 0; continue;
+        case K_TIMEOUT: th[tr.t].op = OP_REACQ; th[tr.t].rc = ETIMEDOUT; sync_ev("E TO%d", tr.t); continue;
+        case K_SPURIOUS: th[tr.t].op = OP_REACQ; th[tr.t].rc = 0; sync_ev("E SP%d", tr.t); continue;
         default: break;
         }
         if (tr.t == self) { cur = self; return; }
@@ -375,6 +392,7 @@ int mc_mutex_lock(pthread_mutex_t* m) {
     if (mx[i].owner >= 0) machinery("T%d scheduled to lock m%d owned by T%d", self, i, mx[i].owner);
     mx[i].owner = self;
     th[self].op = OP_NONE;
+    sync_ev("T%d L%d", self, i);
     if (__tsan_acquire) __tsan_acquire(m);
     return 0;
 }
@@ -388,6 +406,7 @@ int mc_mutex_unlock(pthread_mutex_t* m) {
     if (mx[i].owner != self) model_fail("T%d unlocks mutex m%d which it does not own (owner %d)", self, i, mx[i].owner);
     if (__tsan_release) __tsan_release(m);
     mx[i].owner = -1;
+    sync_ev("T%d U%d", self, i);
     return 0;
 }
 
@@ -416,10 +435,12 @@ static int cond_wait_common(pthread_cond_t* c, pthread_mutex_t* m, int timed) {
     if (__tsan_release) __tsan_release(m);
     mx[mi].owner = -1;
     th[self].op = OP_CBLOCKED; th[self].rc = 0;
+    sync_ev("T%d C%d", self, ci);
     schedule(self);
     if (th[self].op != OP_REACQ || mx[mi].owner >= 0) machinery("T%d resumed from cond wait in state %d", self, th[self].op);
     mx[mi].owner = self;
     th[self].op = OP_NONE;
+    sync_ev("T%d A%d", self, mi);
     if (__tsan_acquire) __tsan_acquire(m);
     return th[self].rc;
 }
@@ -429,9 +450,15 @@ int mc_cond_timedwait(pthread_cond_t* c, pthread_mutex_t* m, const struct timesp
 
 static int cond_wake(int ci, int all) {
     int w[MC_MAX_THREADS], k = 0;
+    int self = self_id;
     for (int t = 0; t < nth; t++) if (th[t].used && th[t].op == OP_CBLOCKED && th[t].ci == ci) w[k++] = t;
-    if (k == 0) return 0;
-    if (all) { for (int i = 0; i < k; i++) { th[w[i]].op = OP_REACQ; th[w[i]].rc = 0; } return k; }
+    if (k == 0) { sync_ev("T%d %c%d>-", self, all ? 'B' : 'S', ci); return 0; }
+    if (all) {
+        char b[8 * MC_MAX_THREADS]; size_t n = 0;
+        for (int i = 0; i < k; i++) { th[w[i]].op = OP_REACQ; th[w[i]].rc = 0; n += mc_fmt(b + n, sizeof b - n, "%s%d", i ? "," : "", w[i]); }
+        sync_ev("T%d B%d>%s", self, ci, b);
+        return k;
+    }
     int pick = 0;
     if (k > 1) {
         trans_t en[MC_MAX_THREADS];
@@ -441,6 +468,7 @@ static int cond_wake(int ci, int all) {
     }
     th[w[pick]].op = OP_REACQ; th[w[pick]].rc = 0;
     trace_add("  wakes T%d\n", w[pick]);
+    sync_ev("T%d S%d>%d", self, ci, w[pick]);
     return 1;
 }
 
@@ -540,7 +568,7 @@ static void run_execution(result_t* res, const uint8_t* prefix, const uint32_t* 
     g_prefix = prefix; g_prefix_sig = sigs; g_prefix_len = plen;
     memset(th, 0, sizeof th);
     th[0].used = 1; th[0].op = OP_NONE; th[0].real = pthread_self(); th[0].mi = th[0].ci = -1;
-    nth = 1; cur = 0; self_id = 0; nmx = ncv = 0; in_end = 0; active = 1;
+    nth = 1; cur = 0; self_id = 0; nmx = ncv = 0; in_end = 0; active = 1; sync_log = 0;
     mc_harness_main(h_argc, h_argv);
     th[0].op = OP_FINISHED;
     schedule(0);
@@ -650,20 +678,36 @@ static int eff_len(const result_t* r) {
     return l;
 }
 
-/* the SUMMARY lines of the sanitizer reports identify *which* report it was (module offsets are stable) */
+/* signature of the sanitizer reports of one execution: the module offsets of the innermost frame (#0) of every
+ * stack in the reports plus the SUMMARY lines (offsets are stable across executions of one binary).  It tells
+ * different reports apart while exploring with symbolize=0; the caller replays one schedule per signature. */
 static void san_signature(const char* serr, char* d, size_t cap) {
     size_t n = 0;
     d[0] = 0;
-    for (const char* p = serr; p && (p = strstr(p, "SUMMARY: ")) != NULL; p++) {
+    for (const char* p = serr; p && *p;) {
         const char* e = strchr(p, '\n');
         size_t l = e ? (size_t)(e - p) : strlen(p);
-        if (n + l + 2 >= cap) break;
-        memcpy(d + n, p, l); n += l; d[n++] = '|'; d[n] = 0;
+        const char* q = p;
+        while (q < p + l && *q == ' ') q++;
+        if (!strncmp(q, "SUMMARY: ", 9)) {
+            if (n + l + 2 < cap) { memcpy(d + n, p, l); n += l; d[n++] = '|'; d[n] = 0; }
+        } else if (!strncmp(q, "#0 ", 3)) {
+            const char* o = NULL;
+            for (const char* r = q; r < p + l; r++) if (*r == '(' && r + 1 < p + l && r[1] != 'B') o = r;   /* "(module+0x..)", not "(BuildId: ..)" */
+            if (o) {
+                const char* c = memchr(o, ')', (size_t)(p + l - o));
+                const char* sl = o;
+                for (const char* r = o; c && r < c; r++) if (*r == '/') sl = r;
+                if (c && n + (size_t)(c - sl) + 2 < cap) { memcpy(d + n, sl + 1, (size_t)(c - sl - 1)); n += (size_t)(c - sl - 1); d[n++] = ','; d[n] = 0; }
+            }
+        }
+        if (!e) break;
+        p = e + 1;
     }
 }
 
 static outcome_t* record_outcome(const char* status, int san, const result_t* r, const char* serr, int level) {
-    char ssig[1024];
+    char ssig[2048];
     san_signature(san ? serr : "", ssig, sizeof ssig);
     size_t kl = strlen(status) + strlen(r->err) + strlen(ssig) + (size_t)r->obs_len + (size_t)r->end_len + 16;
     char* key = malloc(kl);
